@@ -10,7 +10,7 @@ BR = ['(', ')', '[', ']', 'case', 'end', 'if', 'end if', 'for', 'end loop', 'beg
 def _spaces(tier):
     if tier == 'quick':
         return [('D1core<=4 raw', D1CORE, 4, ''), ('D1core<=4 blank', D1CORE, 4, ' '),
-                ('BR<=5 blank', BR, 5, ' '), ('BR<=5 raw', BR, 5, ''), ('D1<=3 raw', spaces.D['D1'], 3, ''),
+                ('BR<=4 blank', BR, 4, ' '), ('BR<=5 raw', BR, 5, ''), ('D1<=3 raw', spaces.D['D1'], 3, ''),
                 ('NEST<=6 blank', NEST, 6, ' ')]
     return [('NEST<=7 blank', NEST, 7, ' '), ('D1core<=5 raw', D1CORE, 5, ''), ('D1core<=5 blank', D1CORE, 5, ' '),
             ('BR<=6 blank', BR, 6, ' '), ('BR<=6 raw', BR, 6, ''), ('D1<=4 raw', spaces.D['D1'], 4, ''),
